@@ -1,10 +1,12 @@
-(* C01 — Encode-then-read round trip preserves every record (codec level;
-   block and file framing: Props/C09.v, Props/C07.v). *)
+(* C01 — Encode-then-read round trip preserves every record (codec level,
+   and composed with the block and file framing of Props/C09.v and Props/C07.v
+   in C01_through_container). *)
 From Coq Require Import List ZArith.
 Require Import Avro.Model.Base Avro.Model.Prim Avro.Model.Schema Avro.Model.GoType
                Avro.Model.Spec Avro.Model.Codec Avro.Model.Denote.
 Require Import Avro.Proofs.Wire Avro.Proofs.BuildP Avro.Proofs.ReadP Avro.Proofs.WriteP Avro.Proofs.SpecP
                Avro.Proofs.RoundTrip Avro.Proofs.FloatConv.
+Require Import Avro.Model.Container Avro.Model.Writer Avro.Proofs.ContainerP Avro.Proofs.FileP Avro.Proofs.EndToEnd.
 Import ListNotations.
 Open Scope Z_scope.
 
@@ -45,6 +47,34 @@ Theorem C01_float32_in_double_field : forall b, 0 <= b < 4294967296 ->
   f32_is_nan b = false -> narrow64 (widen32 b) = b.
 Proof. exact narrow_widen. Qed.
 Print Assumptions C01_float32_in_double_field.
+
+(* Through the container file.  For any history of Encode/Flush calls closed by
+   a flush, in which every record is what codec c writes for some value (whose
+   datum is physical and has an image v' in the destination), under any
+   compressor with a matching decompressor and any block size: reading the file
+   recovers the header as written and delivers exactly as many records as were
+   appended, in order, with success; and each record's bytes decode to that
+   record's image whatever follows them in the block (C01_record_value). *)
+Theorem C01_through_container : forall reg s t om c, build reg s t om = Some c ->
+  forall fuel dest compress decompress, (forall x, decompress (compress x) = Some x) ->
+  forall sync, len sync = 16 ->
+  forall schema_json codec_name size ops bfuel,
+  len schema_json < two63 -> len codec_name < two63 ->
+  Forall (fun r => exists v', written s c fuel dest r v') (recs_of ops) ->
+  Forall (group_small compress) (fst (blocks_spec size [] (ops ++ [OpFlush]))) ->
+  (length (fst (blocks_spec size [] (ops ++ [OpFlush]))) < bfuel)%nat ->
+  exists body,
+    read_header (concat (file_chunks compress schema_json codec_name sync size (ops ++ [OpFlush])))
+      = Some ({| h_meta := written_meta schema_json codec_name; h_sync := sync |}, body) /\
+    read_blocks decompress (rr c fuel dest) (fun _ => None) bfuel sync 0 body = (length (recs_of ops), FOk).
+Proof. exact file_values_roundtrip. Qed.
+Print Assumptions C01_through_container.
+
+Theorem C01_record_value : forall reg s t om c, build reg s t om = Some c ->
+  forall fuel dest r v', written s c fuel dest r v' ->
+  rec_decodes (rr c fuel dest) r /\ forall rest, rv c fuel dest (r ++ rest) = Some v'.
+Proof. exact written_decodes. Qed.
+Print Assumptions C01_record_value.
 
 Example C01_ex :
   let t := TStruct [] [] [GF [65] true [97] [] (TPtr TString);
